@@ -192,6 +192,72 @@ func runC15(c *fw.Ctx) {
 		}
 	}
 	c.Family("encode-len3")
+	// (b2) encoder phases. An encoder's state between symbols is the bits not yet flushed (0..7 of them, any value)
+	// and, if it takes several symbols per step, the position modulo its step. Prefixes of 0..3 symbols over codes of
+	// 5, 6, 7 and 8 bits reach every number of pending bits at every offset parity; after each prefix every ordered
+	// pair of octets (and, over the one-symbol-per-code-length alphabet, every triple and quadruple) is encoded.
+	pre := []byte{'a', ' ', ';', '&'} // code lengths 5, 6, 8, 8; with 'j' (7)
+	pre = append(pre, 'j')
+	var prefixes [][]byte
+	var genPre func(cur []byte)
+	genPre = func(cur []byte) {
+		prefixes = append(prefixes, append([]byte{}, cur...))
+		if len(cur) == 3 {
+			return
+		}
+		for _, b := range pre {
+			genPre(append(cur, b))
+		}
+	}
+	genPre(nil)
+	phases := map[[2]int]bool{}
+	var usePre [][]byte
+	for _, p := range prefixes {
+		bits := 0
+		for _, b := range p {
+			_, n := ref.HuffCode(b)
+			bits += int(n)
+		}
+		k := [2]int{bits % 8, len(p) % 4}
+		if !phases[k] || thorough {
+			phases[k] = true
+			usePre = append(usePre, p)
+		}
+	}
+	c.Bound["encode_phase_prefixes"] = len(usePre)
+	buf := make([]byte, 0, 8)
+phase:
+	for _, p := range usePre {
+		for a := 0; a < 256; a++ {
+			if c.Expired("encode phases (pairs)") {
+				break phase
+			}
+			if item++; !c.Mine(item) {
+				continue
+			}
+			for b := 0; b < 256; b++ {
+				buf = append(append(buf[:0], p...), byte(a), byte(b))
+				encOne(buf)
+			}
+		}
+		for _, a := range alpha {
+			if item++; !c.Mine(item) {
+				continue
+			}
+			for _, b := range alpha {
+				for _, d := range alpha {
+					buf = append(append(buf[:0], p...), a, b, d)
+					encOne(buf)
+					if thorough || len(p) < 2 {
+						for _, e := range alpha {
+							encOne(append(buf, e))
+						}
+					}
+				}
+			}
+		}
+	}
+	c.Family("encode-phases")
 	c.Sample(map[string]any{"family": "encode", "input_hex": "61ff00", "encoded_hex": hex.EncodeToString(ref.HuffEncode([]byte{0x61, 0xff, 0x00}))})
 
 	// (c) decode BX
